@@ -134,12 +134,16 @@ def _body_strs(shape, shape2):
             got = stats.pc(xs)
             pairs = so.count_true([hc.str_eq_term(xs[i], xs[j]) for i in range(len(xs)) for j in range(len(xs)) if i != j])
             den = len(xs) * (len(xs) - 1)
+        elif shape2 == "same":
+            got = stats.pc(xs, xs)           # ONE object as both samples: still the cross form, every position also meets itself
+            pairs = so.count_true([hc.str_eq_term(x, y) for x in xs for y in xs])
+            den = len(xs) * len(xs)
         else:
             ys = [sym.sym_str(f"y{i}", n) for i, n in enumerate(shape2)]
             got = stats.pc(xs, ys)
             pairs = so.count_true([hc.str_eq_term(x, y) for x in xs for y in ys])
             den = len(xs) * len(ys)
-        return so.close(so.mul(got, den), pairs, 1e-6), f"pc returned {got!r}"
+        return so.close(so.mul(got, den), pairs, 1e-6), (lambda: f"pc returned {got!r}")
     return body
 
 
@@ -153,7 +157,7 @@ def _replay_strs(shape, shape2):
             got = stats.pc(xs)
             want = Fraction(sum(1 for i in range(len(xs)) for j in range(len(xs)) if i != j and xs[i] == xs[j]), len(xs) * (len(xs) - 1))
             return abs(got - float(want)) <= 1e-9, f"pc({xs!r}) = {got!r}, expected {want}"
-        ys = [inputs[f"y{i}"] for i in range(len(shape2))]
+        ys = xs if shape2 == "same" else [inputs[f"y{i}"] for i in range(len(shape2))]
         if any("\x00" in y for y in ys):
             return True, ""
         got = stats.pc(xs, ys)
@@ -201,7 +205,7 @@ def _no_join_chars(sym, so, cells):
         if c is None:
             continue
         for i in range(len(c)):
-            sym.assume(so.b_and(so.ne(ord(c[i]), ord(".")), so.ne(ord(c[i]), ord("_"))))
+            sym.assume(so.b_and(so.ne(ord(c[i]), ord(".")), so.ne(ord(c[i]), ord("_")), so.ne(ord(c[i]), ord("|"))))
 
 
 def _rows_equal(so, hc, r1, r2):
@@ -233,6 +237,8 @@ def _body_table(lens, mode, lens2=None):
                 got = stats.pc(df)
             elif mode == "pc_joint":
                 got = stats.pc_joint(df, list(names))
+            elif mode == "pc_joint_gap":           # a caller-chosen separator that occurs in no cell changes nothing
+                got = stats.pc_joint(df, list(names), gap_token="|")
             elif mode == "tuple":
                 got = stats.pc((list(df._cols[names[0]]), list(df._cols[names[1]])))
             else:   # pc_joint on a column subset vs pc of that sub-table
@@ -246,7 +252,8 @@ def _body_table(lens, mode, lens2=None):
             df2 = pd_model.DataFrame({n: [row[j] for row in rows2] for j, n in enumerate(names)})
             pairs = so.count_true([_rows_equal(so, hc, a, b) for a in rows for b in rows2])
             den = len(rows) * len(rows2)
-            got = stats.pc(df, df2) if mode == "pc" else stats.pc_joint(df, list(names), df2)
+            got = (stats.pc(df, df2) if mode == "pc" else stats.pc_joint(df, list(names), df2, gap_token="|") if mode == "pc_joint_gap"
+                   else stats.pc_joint(df, list(names), df2))
         ok = so.b_and(so.close(so.mul(got, den), pairs, 1e-6), so.ge(got, 0), so.le(got, 1))
         return ok, f"{mode} returned {got!r}"
     return body
@@ -270,6 +277,8 @@ def _replay_table(lens, mode, lens2=None):
                 got, use = stats.pc(df), rows
             elif mode == "pc_joint":
                 got, use = stats.pc_joint(df, list(names)), rows
+            elif mode == "pc_joint_gap":
+                got, use = stats.pc_joint(df, list(names), gap_token="|"), rows
             elif mode == "tuple":
                 got, use = stats.pc((list(df[names[0]]), list(df[names[1]]))), rows
             else:
@@ -279,7 +288,8 @@ def _replay_table(lens, mode, lens2=None):
         else:
             rows2 = table("u", lens2)
             df2 = pd.DataFrame(rows2, columns=names, dtype=object)
-            got = stats.pc(df, df2) if mode == "pc" else stats.pc_joint(df, list(names), df2)
+            got = (stats.pc(df, df2) if mode == "pc" else stats.pc_joint(df, list(names), df2, gap_token="|") if mode == "pc_joint_gap"
+                   else stats.pc_joint(df, list(names), df2))
             want = Fraction(sum(1 for a in rows for b in rows2 if a == b), len(rows) * len(rows2))
             desc = f"{mode}({rows!r}, {rows2!r})"
         return abs(float(got) - float(want)) <= 1e-9, f"{desc} = {got!r}, expected {want}"
@@ -307,6 +317,9 @@ def conditions(tier):
     for shape in [(1, 1), (2, 2), (1, 1, 1), (2, 1, 2)]:
         out.append(Condition(f"C02/pc/strs/len={','.join(map(str, shape))}", _body_strs(shape, None), _replay_strs(shape, None),
                              budget=200, models=M, bounds=f"free Unicode strings of lengths {shape} (NumPy model)"))
+    for sa in [(1, 1), (1, 1, 1)]:
+        out.append(Condition(f"C02/pc2/strs/len={','.join(map(str, sa))}/the-same-object", _body_strs(sa, "same"), _replay_strs(sa, "same"), budget=200, models=M,
+                             bounds=f"pc(x, x) with ONE list of free strings of lengths {sa} as both samples: (number of equal ordered position pairs incl. i=i) / N^2"))
     out.append(Condition("C02/pc2/strs/len=1,1/1,1", _body_strs((1, 1), (1, 1)), _replay_strs((1, 1), (1, 1)), budget=200, models=M,
                          bounds="2 x 2 free one-letter strings"))
     for sa, sb in [((1,), (2,)), ((2,), (1, 2)), ((1, 2), (2, 3))]:
@@ -333,6 +346,11 @@ def conditions(tier):
                              budget=300, models=M, bounds="two one-cell tables, the second cell longer than the first"))
         out.append(Condition(f"C02/table2/{mode}/1x2-2x2", _body_table(((1, 1),), mode, ((1, 1), (1, 1))),
                              _replay_table(((1, 1),), mode, ((1, 1), (1, 1))), budget=300, models=M, bounds="two tables 1x2 and 2x2"))
+    out.append(Condition("C02/table/pc_joint_gap/2x2", _body_table(((1, 1), (1, 1)), "pc_joint_gap"), _replay_table(((1, 1), (1, 1)), "pc_joint_gap"),
+                         budget=300, models=M, bounds="table 2x2, pc_joint with gap_token='|' (a character occurring in no cell)"))
+    out.append(Condition("C02/table2/pc_joint_gap/1x2-2x2", _body_table(((1, 1),), "pc_joint_gap", ((1, 1), (1, 1))),
+                         _replay_table(((1, 1),), "pc_joint_gap", ((1, 1), (1, 1))), budget=300, models=M,
+                         bounds="two tables 1x2 and 2x2, pc_joint with gap_token='|'"))
     if tier == "thorough":
         for name, lens in [("3x2sep", ((2, 1), (1, 2), (1, 1))), ("3x3", ((1, 1, 1),) * 3), ("4x1", ((1,),) * 4)]:
             for mode in ("pc", "pc_joint"):
